@@ -24,11 +24,19 @@ def M_any_error_custom(it, ctx, args, st):
     yield st, Agg('conjure_object::any::Error', (de_err('custom'),))
 
 
+def M_ordered_float_into_inner(it, ctx, args, st):
+    v = args[0]
+    v = st.deref_all(v) if isinstance(v, Ptr) else v
+    yield st, v.fields[0]
+
+
 def M_ordered_float_new(it, ctx, args, st):
     yield st, Agg('ordered_float::OrderedFloat', (args[0],))
 
 
 MODELS = [
+    (r'ordered_float::OrderedFloat::<.*>::into_inner', M_ordered_float_into_inner),
+    (r'<ordered_float::OrderedFloat<.*> as (?:std|core)::convert::From<.*>>::from|<f(?:32|64) as (?:std|core)::convert::Into<ordered_float::OrderedFloat<.*>>>::into', M_ordered_float_new),
     (r'<any::Error as (?:[\w:]+::)?(?:de|ser)::Error>::\w+(::<.*>)?|<conjure_object::any::Error as .*Error>::\w+(::<.*>)?', M_any_error_custom),
 ]
 
